@@ -57,6 +57,7 @@ pub struct Conc {
     pub shared_secret: [u8; 16],
     pub status_some: ServerStatus,
     pub loc_tables: HashMap<String, HashMap<String, String>>,
+    pub msg_head: &'static str,
 }
 
 fn rand_uuid(r: &mut Rng) -> Uuid {
@@ -130,10 +131,12 @@ impl Conc {
         let mut shared_secret = [0u8; 16];
         shared_secret.copy_from_slice(&r.bytes(16));
         let mut loc_tables = HashMap::new();
+        // configured messages are plain text (anything that does not open a JSON object): some look like the start of other JSON values
+        let msg_head = ["MSG", "[MSG", "[]MSG", "\"MSG", "0MSG", " {MSG", "nullMSG"][r.below(7) as usize];
         for t in ["de_DE", "fr", "en_US"] {
             let mut m = HashMap::new();
             for k in ["disconnect_no_target", "disconnect_timeout"] {
-                m.insert(k.to_string(), format!("MSG|{k}|{t}|{MSG_TAIL}"));
+                m.insert(k.to_string(), format!("{msg_head}|{k}|{t}|{MSG_TAIL}"));
             }
             loc_tables.insert(t.to_string(), m);
         }
@@ -162,6 +165,7 @@ impl Conc {
                 enforces_secure_chat: Some(true),
             },
             loc_tables,
+            msg_head,
         }
     }
 
@@ -223,6 +227,9 @@ pub struct RoundCtx {
     pub t0: tokio::time::Instant,
     pub t_div: u64, // 1: log milliseconds, 1000: log seconds (timed tiers)
     pub real_delay_ms: u64, // discovery blocks for this long in REAL time (wall-clock dependent behaviour: cookie timestamps)
+    pub var: u64,           // selects the kind of error a failing service reports
+    pub failed: Mutex<std::collections::HashSet<String>>, // services that failed once keep failing when they are asked again
+    pub answered: Mutex<Vec<Value>>, // {a, at}: service a returned its answer when the log had `at` entries (a dropped request never does)
 }
 
 impl RoundCtx {
@@ -231,7 +238,20 @@ impl RoundCtx {
         self.log.lock().unwrap().push(json!({"e": "call", "c": c, "t": t}));
     }
     fn ret(&self, a: &str) -> Option<Value> {
-        self.rets.lock().unwrap().remove(a)
+        let r = self.rets.lock().unwrap().remove(a);
+        if matches!(&r, Some(v) if v == "err" || *v == json!(["ERR"])) {
+            self.failed.lock().unwrap().insert(a.to_string());
+        }
+        r
+    }
+    /// A service that failed is down for the rest of the connection: asking it again (a retry is the implementation's own business and
+    /// is not recorded) fails the same way.
+    async fn down(&self, a: &str) -> Option<passage_adapters::Error> {
+        if self.failed.lock().unwrap().contains(a) {
+            self.lat(a).await;
+            return Some(adapter_err(self.var));
+        }
+        None
     }
     async fn lat(&self, a: &str) {
         if let Some(ms) = self.lats.get(a) {
@@ -239,6 +259,8 @@ impl RoundCtx {
                 tokio::time::sleep(Duration::from_millis(*ms)).await;
             }
         }
+        let at = self.log.lock().unwrap().len();
+        self.answered.lock().unwrap().push(json!({"a": a, "at": at}));
     }
     fn args_ok(&self, c: &SocketAddr, s: (&str, u16), p: Protocol) -> bool {
         *c == self.client_addr && s.0 == self.conc.hs_host && s.1 == self.conc.hs_port && p == self.conc.protocol
@@ -250,8 +272,14 @@ impl RoundCtx {
     }
 }
 
-fn adapter_err() -> passage_adapters::Error {
-    passage_adapters::Error::AdapterUnavailable { adapter_type: "scripted", reason: "scripted failure" }
+fn adapter_err(var: u64) -> passage_adapters::Error {
+    let cause = || Box::new(std::io::Error::new(std::io::ErrorKind::ConnectionReset, "scripted failure")) as Box<dyn std::error::Error + Send + Sync>;
+    match var % 4 {
+        0 => passage_adapters::Error::AdapterUnavailable { adapter_type: "scripted", reason: "scripted failure" },
+        1 => passage_adapters::Error::FailedFetch { adapter_type: "scripted", cause: cause() },
+        2 => passage_adapters::Error::FailedParse { adapter_type: "scripted", cause: cause() },
+        _ => passage_adapters::Error::FailedInitialization { adapter_type: "scripted", cause: cause() },
+    }
 }
 
 pub struct Rec(pub Arc<RoundCtx>);
@@ -264,12 +292,15 @@ impl std::fmt::Debug for Rec {
 impl StatusAdapter for Rec {
     async fn status(&self, c: &SocketAddr, s: (&str, u16), p: Protocol) -> passage_adapters::Result<Option<ServerStatus>> {
         let x = &self.0;
+        if let Some(e) = x.down("status").await {
+            return Err(e);
+        }
         let ret = x.ret("status").unwrap_or(json!("null"));
         x.push(json!({"a": "status", "args": x.args_ok(c, s, p), "ret": ret}));
         x.lat("status").await;
         match ret.as_str() {
             Some("some") => Ok(Some(x.conc.status_some.clone())),
-            Some("err") => Err(adapter_err()),
+            Some("err") => Err(adapter_err(x.var)),
             _ => Ok(None),
         }
     }
@@ -286,6 +317,9 @@ impl AuthenticationAdapter for Rec {
         encoded_public: &[u8],
     ) -> passage_adapters::Result<Profile> {
         let x = &self.0;
+        if let Some(e) = x.down("auth").await {
+            return Err(e);
+        }
         let ret = x.ret("auth").unwrap_or(json!("other"));
         let secret_ok = x.sent_secret.lock().unwrap().as_deref() == Some(shared_secret);
         let pub_ok = x.seen_pub.lock().unwrap().as_deref() == Some(encoded_public);
@@ -299,7 +333,7 @@ impl AuthenticationAdapter for Rec {
                 properties: x.conc.vouched_props.clone(),
                 profile_actions: vec![],
             }),
-            Some("err") => Err(adapter_err()),
+            Some("err") => Err(adapter_err(x.var)),
             _ => Ok(Profile {
                 id: x.conc.other.id,
                 name: x.conc.other.name.clone(),
@@ -313,6 +347,9 @@ impl AuthenticationAdapter for Rec {
 impl DiscoveryAdapter for Rec {
     async fn discover(&self) -> passage_adapters::Result<Vec<Target>> {
         let x = &self.0;
+        if let Some(e) = x.down("discover").await {
+            return Err(e);
+        }
         let ret = x.ret("discover").unwrap_or(json!(["t1"]));
         x.push(json!({"a": "discover", "ret": ret}));
         x.lat("discover").await;
@@ -320,7 +357,7 @@ impl DiscoveryAdapter for Rec {
             std::thread::sleep(Duration::from_millis(x.real_delay_ms));
         }
         if ret == json!(["ERR"]) {
-            return Err(adapter_err());
+            return Err(adapter_err(x.var));
         }
         Ok(x.targets_of(&ret))
     }
@@ -336,12 +373,15 @@ impl FilterAdapter for Rec {
         targets: Vec<Target>,
     ) -> passage_adapters::Result<Vec<Target>> {
         let x = &self.0;
+        if let Some(e) = x.down("filter").await {
+            return Err(e);
+        }
         let input = x.conc.target_labels(&targets);
         let ret = x.ret("filter").unwrap_or_else(|| input.clone());
         x.push(json!({"a": "filter", "who": x.conc.ident_label(user.0, user.1), "in": input, "args": x.args_ok(c, s, p), "ret": ret}));
         x.lat("filter").await;
         if ret == json!(["ERR"]) {
-            return Err(adapter_err());
+            return Err(adapter_err(x.var));
         }
         Ok(x.targets_of(&ret))
     }
@@ -357,12 +397,15 @@ impl StrategyAdapter for Rec {
         targets: Vec<Target>,
     ) -> passage_adapters::Result<Option<Target>> {
         let x = &self.0;
+        if let Some(e) = x.down("select").await {
+            return Err(e);
+        }
         let input = x.conc.target_labels(&targets);
         let ret = x.ret("select").unwrap_or_else(|| input.get(0).cloned().unwrap_or(json!("none")));
         x.push(json!({"a": "select", "who": x.conc.ident_label(user.0, user.1), "in": input, "args": x.args_ok(c, s, p), "ret": ret}));
         x.lat("select").await;
         match ret.as_str() {
-            Some("err") => Err(adapter_err()),
+            Some("err") => Err(adapter_err(x.var)),
             Some("none") | None => Ok(None),
             Some(l) => Ok(x.conc.targets.get(l).cloned()),
         }
@@ -993,7 +1036,7 @@ impl Client {
                     return bad("Disconnect: bytes behind the text component");
                 }
                 let parts: Vec<&str> = m.split('|').collect();
-                if parts.len() == 4 && parts[0] == "MSG" && parts[3] == MSG_TAIL {
+                if parts.len() == 4 && parts[0] == self.conc.msg_head && parts[3] == MSG_TAIL {
                     json!({"k": "Disconnect", "msg": [parts[1], parts[2]]})
                 } else {
                     json!({"k": "Disconnect", "msg": [m, "raw"]})
@@ -1072,6 +1115,8 @@ pub struct RoundCfg {
     pub client_addr: SocketAddr,
     pub expiry: u64,
     pub real_delay_ms: u64,
+    /// the transport takes this many writes whole, five bytes of the next one, and then never becomes writable again
+    pub block_writes_after: Option<usize>,
 }
 
 pub struct RoundOut {
@@ -1084,6 +1129,7 @@ pub struct RoundOut {
     pub max_alloc: usize,
     pub peak_live: usize,
     pub var_note: String,
+    pub answered: Vec<Value>,
 }
 
 fn classify(res: Result<Result<(), passage_protocol::Error>, tokio::task::JoinError>) -> (String, String, bool) {
@@ -1197,9 +1243,18 @@ pub async fn run_round(
         t0,
         t_div: if timed.is_some() { 1000 } else { 1 },
         real_delay_ms: rc.real_delay_ms,
+        var,
+        failed: Mutex::new(Default::default()),
+        answered: Mutex::new(vec![]),
     });
     let (stream, end) = pipe();
     end.set_t0(t0);
+    if let Some(n) = rc.block_writes_after {
+        let mut plan: Vec<crate::mock::WriteOutcome> = (0..n).map(|_| crate::mock::WriteOutcome::Accept(usize::MAX)).collect();
+        plan.push(crate::mock::WriteOutcome::Accept(5));
+        plan.push(crate::mock::WriteOutcome::Pending);
+        end.plan_writes(plan);
+    }
     let a = Arc::new(Rec(ctx.clone()));
     crate::alloc::reset();
     let mut conn = Connection::new(stream, a.clone(), a.clone(), a.clone(), a.clone(), a.clone(), a.clone())
@@ -1482,7 +1537,8 @@ pub async fn run_round(
     cl.drain(ms(t0));
     jar.auth = cl.stored_auth.clone();
     jar.sess = cl.stored_sess.clone();
-    RoundOut { result, why, panic, hang, ran_after_eof, leftover: cl.leftover(), max_alloc, peak_live, var_note: cl.var_note.clone() }
+    RoundOut { result, why, panic, hang, ran_after_eof, leftover: cl.leftover(), max_alloc, peak_live, var_note: cl.var_note.clone(),
+               answered: ctx.answered.lock().unwrap().clone() }
 }
 
 /// How many variants a behaviour fans out into (classes instantiated in several ways).
@@ -1564,12 +1620,33 @@ pub fn run_behaviour(idx: usize, b: &Value, seed: u64, var: u64) -> Value {
                 }
             }
             let rt = tokio::runtime::Builder::new_current_thread().enable_all().start_paused(true).build().unwrap();
-            let rc = RoundCfg { secret: conc.secret(r0["secret"].as_str().unwrap_or("none")), client_addr: conc.client_addr, expiry: conc.expiry, real_delay_ms: 0 };
+            let rc = RoundCfg { secret: conc.secret(r0["secret"].as_str().unwrap_or("none")), client_addr: conc.client_addr, expiry: conc.expiry, real_delay_ms: 0, block_writes_after: None };
             let mut pj = Jar { auth: None, sess: None };
             let log = Arc::new(Mutex::new(vec![]));
             // same variant: the genuine cookie of the priming connection is the one the judged connection alters
             let _ = rt.block_on(run_round(conc.clone(), rc, &evs, None, HashMap::new(), &mut pj, log, var, seed));
         }
+    }
+    // connections share a process: every third behaviour runs right after a connection of SOMEBODY ELSE (own identity, own address) whose
+    // client stopped reading in mid-login, so that it was abandoned with output still queued (what the listener's deadline does to it).
+    // Nothing of that neighbour may show up on the judged connection; it is not part of the judged history.
+    if idx % 3 == 0 {
+        let mut nrng = Rng::new(seed.wrapping_mul(7_000_003).wrapping_add(idx as u64));
+        let nconc = Arc::new(Conc::new(&mut nrng));
+        let evs: Vec<Value> = vec![
+            json!({"e": "rx", "f": {"k": "Handshake", "next": "Login"}}),
+            json!({"e": "rx", "f": {"k": "LoginStart", "who": "claimed"}}),
+            json!({"e": "rx", "f": {"k": "LoginCookieResponse", "which": "session", "v": "absent"}}),
+            json!({"e": "rx", "f": {"k": "EncryptionResponse", "c": "honest"}}),
+            json!({"e": "rx", "f": {"k": "LoginAck"}}),
+            json!({"e": "rx", "f": {"k": "ClientInfo", "locale": "en_US"}}),
+        ];
+        let rt = tokio::runtime::Builder::new_current_thread().enable_all().start_paused(true).build().unwrap();
+        let rc = RoundCfg { secret: nconc.secret("S"), client_addr: nconc.other_addr, expiry: nconc.expiry, real_delay_ms: 0,
+                            block_writes_after: Some(1 + (idx / 3) % 4) };
+        let mut pj = Jar { auth: None, sess: None };
+        let log = Arc::new(Mutex::new(vec![]));
+        let _ = rt.block_on(run_round(nconc, rc, &evs, None, HashMap::new(), &mut pj, log, 0, seed));
     }
     for (k, round) in hist.iter().enumerate() {
         let evs: Vec<Value> = round["obs"].as_array().cloned().unwrap_or_default();
@@ -1591,7 +1668,7 @@ pub fn run_behaviour(idx: usize, b: &Value, seed: u64, var: u64) -> Value {
         let log: Log = Arc::new(Mutex::new(vec![]));
         let rt = tokio::runtime::Builder::new_current_thread().enable_all().start_paused(true).build().unwrap();
         let rc = RoundCfg { secret: conc.secret(round["secret"].as_str().unwrap_or("none")), client_addr: addr, expiry,
-                            real_delay_ms: if b["slow"].as_bool().unwrap_or(false) && k == 0 { 3200 } else { 0 } };
+                            real_delay_ms: if b["slow"].as_bool().unwrap_or(false) && k == 0 { 3200 } else { 0 }, block_writes_after: None };
         let out = rt.block_on(run_round(conc.clone(), rc, &evs, None, HashMap::new(), &mut jar, log.clone(), var, seed));
         drop(rt);
         let obs = log.lock().unwrap().clone();
@@ -1599,7 +1676,7 @@ pub fn run_behaviour(idx: usize, b: &Value, seed: u64, var: u64) -> Value {
             "secret": round["secret"], "rc": rcv, "obs": obs,
             "result": out.result, "why": out.why, "panic": out.panic, "hang": out.hang, "ranAfterEof": out.ran_after_eof,
             "leftover": out.leftover, "maxAlloc": out.max_alloc.min(2_000_000_000), "peakLive": out.peak_live.min(2_000_000_000),
-            "maxLen": conc.max_len, "var": out.var_note,
+            "maxLen": conc.max_len, "var": out.var_note, "rets": out.answered,
         }));
     }
     json!({
@@ -1620,7 +1697,8 @@ pub fn run_timed(idx: usize, rec: &Value, seed: u64, tm: Timed) -> Value {
         json!({"e": "rx", "f": {"k": "LoginStart", "who": "claimed"}}),
         json!({"e": "rx", "f": {"k": "LoginCookieResponse", "which": "session", "v": "absent"}}),
         json!({"e": "rx", "f": {"k": "EncryptionResponse", "c": "honest"}}),
-        json!({"e": "call", "c": {"a": "auth", "ret": "same"}}),
+        // what the service vouches for differs from what the client claimed in every second schedule
+        json!({"e": "call", "c": {"a": "auth", "ret": if idx % 2 == 1 { "other" } else { "same" }}}),
         json!({"e": "call", "c": {"a": "discover", "ret": ["t1", "t2"]}}),
         json!({"e": "call", "c": {"a": "filter", "ret": ["t2", "t1"]}}),
         json!({"e": "call", "c": {"a": "select", "ret": "t2"}}),
@@ -1633,12 +1711,12 @@ pub fn run_timed(idx: usize, rec: &Value, seed: u64, tm: Timed) -> Value {
     let log: Log = Arc::new(Mutex::new(vec![]));
     let mut jar = Jar { auth: None, sess: None };
     let rt = tokio::runtime::Builder::new_current_thread().enable_all().start_paused(true).build().unwrap();
-    let rc = RoundCfg { secret: None, client_addr: conc.client_addr, expiry: conc.expiry, real_delay_ms: 0 };
+    let rc = RoundCfg { secret: None, client_addr: conc.client_addr, expiry: conc.expiry, real_delay_ms: 0, block_writes_after: None };
     let out = rt.block_on(run_round(conc.clone(), rc, &evs, Some(tm), lats, &mut jar, log.clone(), 0, seed));
     drop(rt);
     let obs = log.lock().unwrap().clone();
     json!({"obs": obs, "result": if out.hang { "running".to_string() } else { out.result }, "why": out.why, "panic": out.panic, "hang": out.hang,
-           "leftover": out.leftover})
+           "leftover": out.leftover, "rets": out.answered})
 }
 
 pub fn main_timed(args: &[String]) {
@@ -1689,7 +1767,7 @@ pub fn main_timed(args: &[String]) {
                                "wstall": rec.get("wstall").cloned().unwrap_or(json!("none")), "wsplit": rec.get("wsplit").cloned().unwrap_or(json!(0)), "stalled": rec.get("wstall").is_some(),
                                "obs": var["obs"], "result": var["result"], "why": var["why"], "panic": var["panic"], "hang": var["hang"], "leftover": var["leftover"],
                                "i": k, "var": 0,
-                               "hist": [{"secret": "none", "rc": {"ip": "first", "age": "first", "secret": "first"}, "obs": var["obs"], "result": var["result"],
+                               "hist": [{"secret": "none", "rc": {"ip": "first", "age": "first", "secret": "first"}, "obs": var["obs"], "result": var["result"], "rets": var["rets"],
                                          "panic": var["panic"], "hang": if rec["judgeHang"] == true { var["hang"].clone() } else { json!(false) }, "ranAfterEof": false, "maxAlloc": 0, "maxLen": 10000}]});
             if pair {
                 // reference: the same actions, the segmented frame delivered whole at the time its last byte arrives, transport accepts whole writes
